@@ -17,8 +17,8 @@ ASSUMPTIONS = ["BCn decoding per the Direct3D block-compression specification; f
 
 def plan(tier):
     if tier == "quick":
-        return [("debug", 8, dict(n=45, big=1))]
-    return [("debug", 16, dict(n=500, big=12)), ("release", 4, dict(n=250, big=4)), ("asan", 4, dict(n=60, big=1))]
+        return [("debug", 8, dict(n=45, big=1, vol=1))]
+    return [("debug", 16, dict(n=500, big=12, vol=4)), ("release", 4, dict(n=250, big=4, vol=4)), ("asan", 4, dict(n=60, big=1, vol=1))]
 
 
 def adversarial_block(rng, fmt):
@@ -70,6 +70,11 @@ def shard(ctx):
         if d > 1:
             h = (h + 3) // 4 * 4
         case(ctx, rng, fmt, w, h, d, None)
+    # volumes at the top of the documented range (up to 512 x 512 x 8 = 2 Mi pixels) in every format
+    for fmt in [f for i, f in enumerate(sorted(tex.FORMATS)) if (i + ctx.index) % max(1, 4 // P.get("vol", 1)) == 0][:P.get("vol", 1)]:
+        w, h = rng.choice([(512, 512), (512, 256), (256, 512), (384, 388), (511, 512)])
+        d = rng.choice([8, 8, 5, 6, 7])
+        case(ctx, rng, fmt, w, h, d, None, cls="volume-large")
     # per-block sweeps: one 4x4 block, all orderings x selector patterns
     if True:
         for fmt in ("bc1", "bc3", "bc5"):
@@ -109,7 +114,10 @@ def case(ctx, rng, fmt, w, h, d, payload, cls="random"):
             payload = rng.randbytes(w * H * 4)
         else:
             nb = ((w + 3) // 4) * ((H + 3) // 4)
-            if nb > 2000:
+            if nb > 40000:
+                pool = [adversarial_block(rng, fmt) for _ in range(512)]
+                payload = b"".join(rng.choices(pool, k=nb))
+            elif nb > 2000:
                 payload = rng.randbytes(nb * (8 if fmt == "bc1" else 16))
             else:
                 payload = b"".join(adversarial_block(rng, fmt) for _ in range(nb))
@@ -119,7 +127,7 @@ def case(ctx, rng, fmt, w, h, d, payload, cls="random"):
     out = ctx.path("t.rgba")
     if os.path.exists(out):
         os.unlink(out)
-    ctx.case(digest(data), fmt != "bgra" or w * H >= 2, ["fmt:" + fmt, "depth:%d" % d, "w%%4:%d" % (w % 4), "h%%4:%d" % (h % 4), cls, "3d:%d" % (1 if attr & tex.ATTR_3D else 0)],
+    ctx.case(digest(data), fmt != "bgra" or w * H >= 2, ["fmt:" + fmt, "depth:%d" % d, "pixels:%s" % ("<=2^16" if w * H <= 65536 else "<=2^20" if w * H <= (1 << 20) else ">2^20"), "w%%4:%d" % (w % 4), "h%%4:%d" % (h % 4), cls, "3d:%d" % (1 if attr & tex.ATTR_3D else 0)],
              sample=dict(format=fmt, width=w, height=h, depth=d, attribute=attr, payload_bytes=len(payload)))
     rec = ctx.call("tex.parse", f, out, input_bytes=len(data))
     ctx.check_mon(rec, len(data), files=[f])
